@@ -89,6 +89,12 @@ def vsopF : Handler := fun fn a =>
   | "vsop_pos_tables" =>
     some <| out (GenF.vsop_pos a[6]!.f (unflatten (a[0]!.ql.map (·.floor)) a[1]!.fl)
       (unflatten (a[2]!.ql.map (·.floor)) a[3]!.fl) (unflatten (a[4]!.ql.map (·.floor)) a[5]!.fl))
+  | "geometric_vsop_pos_tables" =>
+    some <| out (GenF.geometric_vsop_pos a[6]!.f (unflatten (a[0]!.ql.map (·.floor)) a[1]!.fl)
+      (unflatten (a[2]!.ql.map (·.floor)) a[3]!.fl) (unflatten (a[4]!.ql.map (·.floor)) a[5]!.fl) true)
+  | "apparent_vsop_pos_tables" =>
+    some <| out (GenF.apparent_vsop_pos a[6]!.f (unflatten (a[0]!.ql.map (·.floor)) a[1]!.fl)
+      (unflatten (a[2]!.ql.map (·.floor)) a[3]!.fl) (unflatten (a[4]!.ql.map (·.floor)) a[5]!.fl) true)
   -- the per-planet wrapper methods (generated from the source)
   | "geometric_heliocentric_position" => some <| out (GenF.planet_geometric_heliocentric_position a[0]!.s a[1]!.f a[2]!.b)
   | "apparent_heliocentric_position" => some <| out (GenF.planet_apparent_heliocentric_position a[0]!.s a[1]!.f)
